@@ -47,6 +47,8 @@ pub struct Case {
     /// documents that exist cluster-wide before the operation (so deletes and overwrites matter)
     pub preload: bool,
     pub seed: u64,
+    /// per node id: simulated latency of its storage calls in ms
+    pub storage_latency_ms: BTreeMap<u8, u64>,
 }
 
 pub struct C06;
@@ -101,7 +103,16 @@ impl Prop for C06 {
             }
         }
         let earlier = (0..src.below(4)).map(|_| src.below(LEVELS.len())).collect();
-        Case { nodes, issuer, level, kind, keys, behaviour, earlier, preload: src.chance(1, 2), seed: src.word() }
+        let preload = src.chance(1, 2);
+        let seed = src.word();
+        let mut storage_latency_ms = BTreeMap::new();
+        for (id, _) in &nodes {
+            let ms = *src.pick(&[0u64, 0, 0, 1, 4]);
+            if ms > 0 {
+                storage_latency_ms.insert(*id, ms);
+            }
+        }
+        Case { nodes, issuer, level, kind, keys, behaviour, earlier, preload, seed, storage_latency_ms }
     }
 
     fn run(&self, case: &Case) -> Outcome {
@@ -119,11 +130,12 @@ impl Prop for C06 {
             "earlier_selections": case.earlier.iter().map(|l| level_name(*l)).collect::<Vec<_>>(),
             "preload": case.preload,
             "seed": case.seed,
+            "storage_latency_ms": case.storage_latency_ms,
         })
     }
 
     fn rule(&self) -> &'static str {
-        "1-6 real nodes in 1-3 data centres, generated issuer, all 8 consistency levels, put/put_many/del/del_many, a \
+        "1-6 real nodes in 1-3 data centres (storage latency 0-4 ms per node), generated issuer, all 8 consistency levels, put/put_many/del/del_many, a \
          generated subset of replicas that drop the request, drop the reply, fail their storage write, answer slowly \
          or get the message twice, preceded by 0-3 earlier selections (moves the selector cursors), optionally over \
          pre-existing documents; oracle: Ok => read immediately, the issuer and at least the required number of \
@@ -148,7 +160,7 @@ pub fn holds(node: &NodeH, ks: &str, id: u64, t: Stamp) -> bool {
 }
 
 async fn run(case: &Case, net: e3::Net) -> Outcome {
-    let layout = Layout { nodes: case.nodes.clone(), repair_interval: Duration::from_secs(5) };
+    let layout = Layout { nodes: case.nodes.clone(), repair_interval: Duration::from_secs(5), storage_latency_ms: case.storage_latency_ms.clone() };
     let nodes = e3::start_cluster(&layout).await;
     let t0 = tokio::time::Instant::now();
     let ks = ks_name(0);
@@ -329,6 +341,9 @@ async fn run(case: &Case, net: e3::Net) -> Outcome {
     if !case.behaviour.is_empty() {
         labels.push("deviating_replica");
     }
+    if !case.storage_latency_ms.is_empty() {
+        labels.push("slow_storage");
+    }
     if elapsed >= Duration::from_millis(1_700) {
         labels.push("waited_for_slow_replica");
     }
@@ -477,7 +492,7 @@ pub mod membership {
 
     async fn run(case: &Case, net: e3::Net) -> Outcome {
         let repair = Duration::from_secs(5);
-        let layout = Layout { nodes: case.nodes.clone(), repair_interval: repair };
+        let layout = Layout { nodes: case.nodes.clone(), repair_interval: repair, storage_latency_ms: Default::default() };
         let mut nodes = e3::start_cluster(&layout).await;
         let t0 = tokio::time::Instant::now();
         let ks = ks_name(0);
